@@ -738,6 +738,16 @@ class ExecMixin:
         ks |= self.keys_of('mem:uint8', 'uint8') | self.keys_of('mem:[]uint8', '[]byte')
         return ks
 
+    def world_keys(self):
+        """everything another thread or a user callback may change: all keys except thread-local ghost state"""
+        ks = set(self.all_keys())
+        for g in self.c.threadlocal_fields:
+            tn, gf = g.rsplit('.', 1)
+            for full in self.p.types:
+                if self.match_type(full, tn) and self.p.desc(full).get('kind') == 'named': ks.discard(self.ghost_key(full, gf))
+        for g in self.c.ghostglobals: ks.discard('ghost:' + g)
+        return ks
+
     def keys_of(self, key, t):
         k = self.K(t)
         if k == 'array':
@@ -841,6 +851,7 @@ class ExecMixin:
         e = entry.strip()
         if e == 'nothing': return set()
         if e == 'anything': return set(self.all_keys())
+        if e == 'world': return set(self.world_keys())
         if e.startswith('mem'):
             et = 'uint8'
             if ':' in e: et = self.resolve_type(e.split(':', 1)[1])
